@@ -11,8 +11,11 @@ from .. import gen, genheat
 from ..recipe import abbreviate, build, solve
 from ..runner import Finding, Outcome, derive_seed, run_given
 
-RULE = ("cases = (recipe, profile table for a generated subset of sinks / sources (mdot_kg_per_s) and ext grids (p_bar, in_service = supply outage) over 1..8 "
-        "steps with some steps made infeasible on purpose (absurd load), list of time steps to run = generated subset in generated "
+RULE = ("cases = (recipe, profile table for a generated subset of sinks / sources (mdot_kg_per_s), ext grids (p_bar, in_service = supply "
+        "outage), valves (opened), pipes / sinks / exchangers (in_service), heat consumers (qext_w), flow and pressure controllers "
+        "(set-points) over 1..8 steps; optionally only_update_hydraulic_matrix + reuse_internal_data when only loads change; "
+        "optionally one target driven by a controller that needs 2-4 control iterations per step; "
+        "with some steps made infeasible on purpose (absurd load), list of time steps to run = generated subset in generated "
         "order, continue_on_divergence flag, pipeflow options incl. sequential mode on heating loops). The series is run with "
         "ConstControl + OutputWriter; every logged step is compared bit-exactly with pipeflow on a freshly built net carrying that "
         "step's values. Non-trivial = >= 3 steps run and a failing step that is not the last one, or the steps are run out of "
@@ -37,30 +40,76 @@ def case_strategy(draw, tier):
     nsteps = draw(st.integers(3, 8))
     targets = []
     first = True
+    structural = draw(st.booleans())      # profiles that switch elements (topology changes from step to step)
     for e in rec["elements"]:
         if e["table"] in ("sink", "source") and (first or draw(st.booleans())):
             first = False
             targets.append((e["table"], e["index"], "mdot_kg_per_s", e["mdot_kg_per_s"]))
         if e["table"] == "ext_grid" and e.get("p_bar") is not None and draw(st.integers(0, 3)) == 0:
             targets.append((e["table"], e["index"], "p_bar", e["p_bar"]))
-        elif e["table"] == "ext_grid" and draw(st.integers(0, 2)) == 0:
+        elif e["table"] == "ext_grid" and structural and draw(st.integers(0, 2)) == 0:
             targets.append((e["table"], e["index"], "in_service", True))      # supply outage in some steps
+        elif structural and e["table"] == "valve" and draw(st.integers(0, 2)) == 0:
+            targets.append((e["table"], e["index"], "opened", True))          # switching schedule
+        elif structural and e["table"] in ("pipe", "sink", "heat_exchanger") and draw(st.integers(0, 5)) == 0:
+            targets.append((e["table"], e["index"], "in_service", True))
+        elif e["table"] == "heat_consumer" and e.get("qext_w") is not None and draw(st.booleans()):
+            targets.append((e["table"], e["index"], "qext_w", e["qext_w"]))
+        elif e["table"] == "flow_control" and draw(st.booleans()):
+            targets.append((e["table"], e["index"], "controlled_mdot_kg_per_s", e["controlled_mdot_kg_per_s"]))
+        elif e["table"] == "press_control" and draw(st.integers(0, 2)) == 0:
+            targets.append((e["table"], e["index"], "controlled_p_bar", e["controlled_p_bar"]))
     prof = {}
     for k, (t, i, col, base) in enumerate(targets):
         vals = []
-        if col == "in_service":
+        if col in ("in_service", "opened"):
             prof["c%d" % k] = [draw(st.integers(0, 2)) > 0 for _ in range(nsteps)]
             continue
         for s in range(nsteps):
-            fac = draw(st.sampled_from([0.0, 0.5, 1.0, 1.0, 1.3, 2.0] if col != "p_bar" else [0.9, 1.0, 1.1]))
+            fac = draw(st.sampled_from([0.0, 0.5, 1.0, 1.0, 1.3, 2.0] if col not in ("p_bar", "controlled_p_bar") else [0.9, 1.0, 1.1]))
             v = base * fac
-            if col != "p_bar" and draw(st.integers(0, 5)) == 0:
+            if col == "mdot_kg_per_s" and draw(st.integers(0, 5)) == 0:
                 v = abs(base) * 1e5 + 1e3      # infeasible on purpose
             vals.append(v)
         prof["c%d" % k] = vals
     steps = draw(st.lists(st.integers(0, nsteps - 1), min_size=3, max_size=nsteps, unique=True))
+    opts = dict(opts)
+    if not any(t[2] in ("in_service", "opened") for t in targets) and draw(st.integers(0, 2)) == 0:
+        # the usual speed-up for time series whose structure does not change: only the loads differ between steps
+        opts.update(only_update_hydraulic_matrix=True, reuse_internal_data=True)
+    # controller loop inside every step: a controller that needs several control iterations (it walks the target through
+    # intermediate values before it writes the step's value and reports convergence)
+    loop = draw(st.integers(0, 2)) == 0
     return {"recipe": rec, "options": opts, "targets": [list(t[:3]) for t in targets], "profile": prof, "steps": steps,
-            "continue_on_divergence": draw(st.booleans())}
+            "continue_on_divergence": draw(st.booleans()), "controller_loop": draw(st.integers(1, 3)) if loop else 0}
+
+
+def make_walk_controller():
+    """A controller with a real control loop: in every time step it first writes `n` intermediate values (the step's value
+    scaled by 0.5, 0.75, ...) and only then the step's value itself, reporting convergence afterwards. What is logged for the
+    step must be the calculation with the final value - not one of the intermediate iterations."""
+    from pandapower.control.basic_controller import Controller
+
+    class WalkControl(Controller):
+        def __init__(self, net, element, variable, element_index, values, n, **kw):
+            super().__init__(net, **kw)
+            self.element, self.variable, self.element_index = element, variable, element_index
+            self.values, self.n = list(values), n
+            self.todo = []
+
+        def time_step(self, net, time):
+            # like ConstControl, the first value of the step is written at once, so that every calculation of this step
+            # is defined by this step's values alone (nothing is left over from a preceding, possibly failed, step)
+            v = self.values[time]
+            self.todo = [v * (0.5 + 0.25 * k) for k in range(self.n)] + [v]
+            net[self.element].at[self.element_index, self.variable] = self.todo.pop(0)
+
+        def is_converged(self, net):
+            return not self.todo
+
+        def control_step(self, net):
+            net[self.element].at[self.element_index, self.variable] = self.todo.pop(0)
+    return WalkControl
 
 
 def evaluate(case):
@@ -77,7 +126,19 @@ def evaluate(case):
     by_tv = {}
     for k, (t, i, col) in enumerate(case["targets"]):
         by_tv.setdefault((t, col), []).append((i, "c%d" % k))
+    walked = None
+    if case.get("controller_loop"):
+        # only quantities whose intermediate (smaller) values keep a feasible step feasible
+        k0 = next((k for k, (t, i, col) in enumerate(case["targets"])
+                   if (t, col) in (("sink", "mdot_kg_per_s"), ("heat_consumer", "qext_w"), ("flow_control", "controlled_mdot_kg_per_s"))), None)
+        if k0 is not None:
+            t, i, col = case["targets"][k0]
+            make_walk_controller()(net, t, col, i, list(prof["c%d" % k0]), case["controller_loop"])
+            walked = k0
     for (t, col), lst in by_tv.items():
+        lst = [(i, c) for i, c in lst if c != "c%s" % walked]
+        if not lst:
+            continue
         # one data source per controlled column: a row of a frame with mixed bool / float columns would be read as object dtype
         control.ConstControl(net, element=t, variable=col, element_index=[i for i, _ in lst],
                              data_source=DFData(prof[[c for _, c in lst]].copy()), profile_name=[c for _, c in lst])
@@ -101,7 +162,7 @@ def evaluate(case):
         fresh = build(rec)
         for k, (t, i, col) in enumerate(case["targets"]):
             fresh[t].at[i, col] = prof["c%d" % k].iloc[s]
-        r = solve(fresh, **opts)
+        r = solve(fresh, **{k_: v_ for k_, v_ in opts.items() if k_ != "reuse_internal_data"})
         statuses.append(r.status)
         if r.status == "crash":
             from ..recipe import exc_sig
@@ -154,13 +215,20 @@ def evaluate(case):
         labels.add("supply_outage_profile")
     if out_of_order:
         labels.add("out_of_order")
+    if opts.get("reuse_internal_data"):
+        labels.add("reuse_internal_data")
+    if walked is not None:
+        labels.add("controller_loop")
+    for _, _, col in case["targets"]:
+        labels.add("profile:" + col)
     nontriv = len(case["steps"]) >= 3 and ((fail_pos and fail_pos[0] < len(case["steps"]) - 1) or out_of_order)
     return Outcome(findings=f, labels=labels, nontrivial=nontriv, sample=_sample(case))
 
 
 def _sample(case):
     return {"recipe": abbreviate(case["recipe"]), "targets": case["targets"], "profile": case["profile"], "steps": case["steps"],
-            "continue_on_divergence": case["continue_on_divergence"], "options": case["options"]}
+            "continue_on_divergence": case["continue_on_divergence"], "options": case["options"],
+            "controller_loop": case.get("controller_loop", 0)}
 
 
 def run_shard(coll, tier, seed, shard, nshards, known):
